@@ -11,6 +11,11 @@ import itertools
 
 import numpy as np
 
+
+def BITS(a):
+    """the bytes of an array, whatever its memory layout (a result may legitimately be Fortran-ordered or strided)"""
+    return np.ascontiguousarray(np.asarray(a)).view(np.uint8)
+
 import fixtures
 from fixtures import OrderedExecutor, patched_executors
 
@@ -107,7 +112,7 @@ def run_with_orders(ctx, fn, ref, ntasks, cj, label, inputs):
     hashes = [a.tobytes() for a in inputs]
 
     def same(res):
-        return all(np.array_equal(np.asarray(a).view(np.uint8), np.asarray(b).view(np.uint8)) for a, b in zip(res, ref))
+        return all(np.array_equal(BITS(np.asarray(a)), BITS(np.asarray(b))) for a, b in zip(res, ref))
 
     for perm in orders_for(ctx, ntasks):
         OrderedExecutor.mode, OrderedExecutor.order_fn, OrderedExecutor.log = "perm", (lambda n, perm=perm: perm if n == len(perm) else range(n)), []
@@ -290,7 +295,7 @@ def check_numba_threads(ctx):
                     numba.set_num_threads(nt)
                     res = das.delay_and_sum(frame, fl, fillvalue=fv, interpolation=interp)
                     ctx.count("das:threads")
-                    if not np.array_equal(res.view(np.uint8), ref.view(np.uint8)):
+                    if not np.array_equal(BITS(res), BITS(ref)):
                         ctx.violate(f"delay_and_sum({amp},{interp}) differs between 1 and {nt} numba threads", {**cj, "threads": nt}, {"kind": "numba_threads"})
                 after = [x.tobytes() for x in (c["tt"], c["lt_tx"], c["lt_rx"], c["amp_tx"], c["amp_rx"], c["tx"], c["rx"], frame.timetraces)] + [None if wts is None else wts.tobytes()]
                 if before != after or frame.timetraces is not tt_obj:
@@ -319,7 +324,7 @@ def check_numba_threads(ctx):
                     ctx.count("das-robust:threads")
                 ref = outs[1]
                 for nt, o in outs.items():
-                    same = (isinstance(o, str) and isinstance(ref, str)) or (not isinstance(o, str) and not isinstance(ref, str) and np.array_equal(o.view(np.uint8), ref.view(np.uint8)))
+                    same = (isinstance(o, str) and isinstance(ref, str)) or (not isinstance(o, str) and not isinstance(ref, str) and np.array_equal(BITS(o), BITS(ref)))
                     if not same:
                         ctx.violate(f"delay_and_sum(aggregation={agg}, interpolation={interp}) differs between 1 and {nt} numba threads", {**cj, "threads": nt}, {"kind": "numba_threads"})
                         break
@@ -338,9 +343,9 @@ def check_numba_threads(ctx):
             ctx.case(("guv", mat.tobytes()), True)
             for nt in sorted({2, int(rng.integers(1, maxt + 1)), maxt}):
                 numba.set_num_threads(nt)
-                ok = (np.array_equal(_scat._interpolate_scattering_matrix_ufunc(mat, inc, outa).view(np.uint8), ref.view(np.uint8))
-                      and np.array_equal(signal.timeshift_spectra(x, delays, freq).view(np.uint8), ref2.view(np.uint8))
-                      and np.array_equal(signal.timeshift_spectra(x[:, :1], delays, freq).view(np.uint8), ref3.view(np.uint8)))
+                ok = (np.array_equal(BITS(_scat._interpolate_scattering_matrix_ufunc(mat, inc, outa)), BITS(ref))
+                      and np.array_equal(BITS(signal.timeshift_spectra(x, delays, freq)), BITS(ref2))
+                      and np.array_equal(BITS(signal.timeshift_spectra(x[:, :1], delays, freq)), BITS(ref3)))
                 ctx.count("guv:threads")
                 if not ok:
                     ctx.violate(f"a guvectorize(parallel) kernel differs between 1 and {nt} threads", {"op": "guvectorize", "threads": nt}, {"kind": "numba_threads"})
@@ -389,7 +394,7 @@ def check_model_amplitudes(ctx):
                     numba.set_num_threads(nt)
                     got = np.concatenate([np.atleast_2d(obj[sl]) for sl in (slice(0, npts // 2), slice(npts // 2, None))]) if rng.random() < 0.5 else obj[...]
                     ctx.count("model_amplitudes:threads")
-                    if not np.array_equal(np.asarray(got).view(np.uint8), ref.view(np.uint8)):
+                    if not np.array_equal(BITS(np.asarray(got)), BITS(ref)):
                         ctx.violate(f"model amplitudes ({route}) differ between 1 and {nt} numba threads / between whole-grid and sliced evaluation",
                                     {**cj, "threads": nt}, {"kind": "numba_threads"})
                 # sensitivity maps: block sizes, repeated calls, ndarray and ModelAmplitudes inputs
@@ -401,7 +406,7 @@ def check_model_amplitudes(ctx):
                         for inp, label in ((arr, "ndarray"), (obj, "ModelAmplitudes")):
                             res = fn(inp, w, block_size=blk)
                             ctx.count("sensitivity:block")
-                            if not np.array_equal(res.view(np.uint8), base.view(np.uint8)):
+                            if not np.array_equal(BITS(res), BITS(base)):
                                 ctx.violate(f"{fn.__name__}({label}) depends on the block size / on earlier calls (block_size={blk})",
                                             {**cj, "block": blk, "input": label}, {"kind": "block_size"})
                             if arr.tobytes() != arr_before:
